@@ -184,7 +184,11 @@ def work(task):
             g = ws.random_gates(n, L, rnd, ("uniform", "single", "two", "swapchain", "yheavy", "idpad", "redundant", "subset")[i % 8])
             case = {"kind": "circuit", "n": n, "gates": [[nm, list(qs)] for nm, qs in g]}
             p.evals += 1
-            ok, s = call(lambda: Stabilizer(ws.qiskit_circuit(g, n)))
+            regs = ws.random_registers(n, rnd) if i % 3 == 1 else None
+            case["registers"] = regs
+            if regs:
+                p.counters["circuits on several quantum registers"] += 1
+            ok, s = call(lambda: Stabilizer(ws.qiskit_circuit(g, n, regs)))
             if not ok:
                 p.violate("format circuit constructor-raises", "Stabilizer(circuit) raised %s on [%s]" % (exc_name(s), fmt_gates(g)[:200]), case)
                 continue
@@ -217,7 +221,7 @@ def replay(cj):
     elif kind == "circuit":
         from htstabilizer.stabilizer import Stabilizer
         g = [(nm, tuple(qs)) for nm, qs in cj["gates"]]
-        ok, s = call(lambda: Stabilizer(ws.qiskit_circuit(g, cj["n"])))
+        ok, s = call(lambda: Stabilizer(ws.qiskit_circuit(g, cj["n"], cj.get("registers"))))
         if ok:
             check_object(p, s, state_of(g, cj["n"]), cj["n"], "circuit", cj, exact=False)
         else:
